@@ -118,7 +118,9 @@ def build(tier, seed):
         c.search_fn = lambda: c16.search(("remote",))
         return c
     _one.__name__ = "load_external_one"
-    tasks = [a_task(PROP, _get_name), a_task(PROP, _rebase), a_task(PROP, _one), Task(f"{PROP}.S.incl_src", PROP, "Project._fortran_file", _incl),
+    tasks = [Task(f"{PROP}.S.normalise_path", PROP, "ford.utils.normalise_path", lambda: [__import__("contracts.confine", fromlist=["x"]).normalise_path_resolves(
+                  PROP, "the links of a static page are computed between the output directory and the page's resolved output path: both sides must be resolved, symbolic links included")]),
+             a_task(PROP, _get_name), a_task(PROP, _rebase), a_task(PROP, _one), Task(f"{PROP}.S.incl_src", PROP, "Project._fortran_file", _incl),
              a_task(PROP, _w(links.find_in_list)), a_task(PROP, _w(links.project_find_tail)), a_task(PROP, _w(links.convert_link_lookup)), link_re_task(),
              a_task(PROP, _ptd),
              Task(f"{PROP}.S.no_memo", PROP, "FordLinkProcessor.handleMatch", lambda: links.no_memo_obligation(PROP, lambda: __import__("bounded.c11", fromlist=["x"]).search())),
